@@ -96,4 +96,30 @@ theorem C06_S5_falsy_plate_zero_counterexample :
     cliTextOld (some 0) = "-1" ∧ cliText (some 0) = "0" ∧ cliTextOld (some 3) = cliText (some 3) ∧ cliTextOld none = cliText none := by
   decide
 
+/-! ### S8-C06: no tolerance in the minimum -/
+
+/-- S8-C06, positive and general: the model's selection is an EXACT minimiser — for any holder, any two allowed cells are compared with
+    the exact order of their values (rationals with −∞): an allowed cell whose score is strictly lower than the selected one's, by however
+    small a margin, does not exist. -/
+theorem C06_selection_exact_minimiser (H : Holder) (hHw : HolderWF H) (s : Screen) (policy : Option Policy) (hpol : PolicyFilters policy)
+    (batch : List Int) (p : Int) (hsel : selectNextPlate H s policy batch = .ok (some p)) :
+    ∃ sp, (p, sp) ∈ H.entries ∧ p ∈ eligible s policy batch ∧
+      ¬ ∃ q sq, (q, sq) ∈ H.entries ∧ q ∈ eligible s policy batch ∧ sq.lt sp = true := by
+  obtain ⟨_, _, _, hel, sp, hmem, hmin⟩ := C06_selection_sound_any_holder H hHw s policy hpol batch p hsel
+  refine ⟨sp, hmem, hel, ?_⟩
+  rintro ⟨q, sq, hq, hqe, hlt⟩
+  rw [hmin q sq hq hqe] at hlt
+  cases hlt
+
+/-- plate 4 scored 1, plate 1 scored 1.000004 -/
+def exNearTie : Holder := { size := 2, scores := [.fin 1, .fin (1000004 / 1000000)], plateIds := [4, 1], cur := 2 }
+
+/-- S8-C06, regression witness: with the lowest id among the allowed cells within a tolerance (1e-5) of the best, plate 1 is returned
+    although the allowed plate 4 has a strictly lower score; the real `plate_id_with_minimum_score` returns plate 4. -/
+theorem C06_S8_tolerance_tie_break_counterexample :
+    exNearTie.lowestIdWithinTol [1, 4] (1 / 100000) = some 1
+    ∧ (exNearTie.plateIdWithMinimumScore (some [1, 4])).toOption = some 4
+    ∧ Score.lt (.fin 1) (.fin (1000004 / 1000000)) = true := by
+  decide +kernel
+
 end Batchie.Props.C06
